@@ -4,7 +4,7 @@ from ..core import *
 from ..inline import inlined_body
 from .. import census
 
-EXPLANATION = ("Three structural facts that are necessary for history independence (sufficiency is NOT claimed): (R10.1) every operation that reads "
+EXPLANATION = ("(R10.4) sync_inner_with_uncompressed_pos seeks the inner layer absolutely on every successful return. " "Three structural facts that are necessary for history independence (sufficiency is NOT claimed): (R10.1) every operation that reads "
                "through ArchiveReader::src first positions it absolutely: BlocksToFileReader::new seeks to Start(offsets[0]) of the slice it was given, "
                "get_hash to Start(eof_offset) of the looked-up entry, get_file hands in the offsets of the entry looked up by the requested name, "
                "move_to_next_block seeks to Start(offsets[current_offset]) after the increment, the footer readers seek from the end, linear_extract "
